@@ -276,11 +276,17 @@ class GlobalIR:
                 return self.block(st.body if consts[test.id] else st.orelse, m, c, consts, depth)
             pre = self.expr(test, m, c, consts, depth)
             d0 = set(self.ctx['dirty'])
+            s0 = dict(self.ctx['saved'])
             a = self.block(st.body, m, c, consts, depth)
             d1 = set(self.ctx['dirty'])
+            s1 = dict(self.ctx['saved'])
             self.ctx['dirty'] = set(d0)
+            self.ctx['saved'] = dict(s0)
             b = self.block(st.orelse, m, c, consts, depth)
             self.ctx['dirty'] |= d1
+            # a variable holds the entry value of a cell only if it does on both paths
+            s2 = self.ctx['saved']
+            self.ctx['saved'] = {k: v for k, v in s1.items() if s2.get(k) == v}
             return gseq([pre, ('alt', a, b)])
         if isinstance(st, (ast.For, ast.While)):
             return gseq([self.expr(st.iter if isinstance(st, ast.For) else st.test, m, c, consts, depth),
